@@ -4,7 +4,7 @@ import json, os, sys
 HERE = os.path.dirname(os.path.abspath(__file__))
 VERIF = os.path.dirname(HERE)
 sys.path.insert(0, VERIF)
-from xstatic.meta import META
+from xstatic.meta import META, full_explanation
 from xstatic import core
 from xstatic import rules  # noqa
 
@@ -32,7 +32,7 @@ for pid in sorted(META):
                     "The behavioural statement itself is not proved. %s" % (rl, m.get("level_text", "")),
             "design_ref": "DESIGN.md section 4, %s" % pid,
         },
-        "level_note": "Decides: " + m["explanation"] + " Trusted base: " + "; ".join(m.get("trusted_base", [])) +
+        "level_note": "Decides: " + full_explanation(pid) + " Trusted base: " + "; ".join(m.get("trusted_base", [])) +
                       ". Not decided: " + "; ".join(m.get("not_decided", [])) + ".",
         "technique": m.get("technique", "static analysis: AST + CFG + call-graph rules"),
     })
